@@ -912,3 +912,98 @@ Proof.
         apply follb_fset_val; [exact Hgn|exact Hf1].
       * unfold ins. apply fset_val_fmap_kids; [exact HpP|]. intros k0. unfold h. apply fset_val_insert_first_normal; [exact HpT|exact Hgn].
 Qed.
+
+(* ---------- detach and remove ---------- *)
+
+(* a node of another category than text has no text sibling of its own category *)
+Lemma rc_abnormal st st1 n z : NoDup (ids (store st)) -> cur st n = Some z -> is_normal (z_val z) = false -> (forall x, val st1 x = val st x) ->
+  remove_consolidate st1 (q_prev st n) (q_next st n) = (st1, false).
+Proof.
+  intros Hnd Hc Hab Hv. destruct (remove_consolidate st1 (q_prev st n) (q_next st n)) as [s m] eqn:E.
+  destruct (rc_exact _ _ _ _ _ E) as [[-> ->]|(p & x & tp & tn & Ha & _ & _ & Hvp & _)]; [reflexivity|].
+  exfalso. destruct (q_prev_view _ _ _ _ Hc Ha) as (v & k & r & Eb & Hcat).
+  assert (Zipper.left z = Some (mkz p v k r (FCons (z_slot z) (z_val z) (z_kids z) (z_after z)) (z_ups z))) as Hl
+    by (unfold Zipper.left; rewrite Eb; reflexivity).
+  pose proof (cur_move st n z _ Hnd Hc (or_intror (or_introl Hl))) as Hcp. cbn [mkz z_slot] in Hcp.
+  pose proof (val_of_cur _ _ _ Hcp) as Hpv. cbn [mkz z_val] in Hpv.
+  rewrite Hv, Hpv in Hvp. inversion Hvp; subst v. destruct (z_val z); discriminate.
+Qed.
+
+(* the two neighbours of a node touch once the node is cut out *)
+Lemma neighbours_touch st b zb pb nb tp : Good st -> cur st b = Some zb -> q_prev st b = Some pb -> q_next st b = Some nb ->
+  val st pb = Some (VText tp) -> follb true pb nb (fdel b (store st)).
+Proof.
+  intros G Hc Ha Hb Hvp. pose proof (Good_WF _ G) as W.
+  destruct (q_prev_view _ _ _ _ Hc Ha) as (vp & kp & bf' & Eb & Hcp). destruct (q_next_view _ _ _ _ Hc Hb) as (vn & kn & af' & Ea & Hcn).
+  assert (z_ups zb <> []) as Hne by (eapply has_sibling_inner; [exact Hc|left; congruence]).
+  assert (Zipper.left zb = Some (mkz pb vp kp bf' (FCons (z_slot zb) (z_val zb) (z_kids zb) (z_after zb)) (z_ups zb))) as Hl
+    by (unfold Zipper.left; rewrite Eb; reflexivity).
+  pose proof (cur_move st b zb _ (proj1 W) Hc (or_intror (or_introl Hl))) as Hcp0. cbn [mkz z_slot] in Hcp0.
+  assert (vp = VText tp) as -> by (rewrite (val_of_cur _ _ _ Hcp0) in Hvp; inversion Hvp; reflexivity).
+  destruct (zview _ _ _ Hc) as [Htc (A & B & E)].
+  destruct (cut_setup st b zb G Hc) as [Hcut _]. pose proof (fcut_view st b zb A B W Hc E) as Hcut'. rewrite Hcut in Hcut'.
+  inversion Hcut' as [Hf]. rewrite Hf. unfold cut_store. destruct (z_ups zb) as [|fr ups] eqn:Eu; [congruence|]. rewrite Eb, Ea.
+  set (zp := mkz pb (VText tp) kp bf' (FCons nb vn kn af') (fr :: ups)).
+  change (fapp A (fapp (plug_ups (frev_app (FCons pb (VText tp) kp bf') (FCons nb vn kn af')) (fr :: ups)) B))
+    with (fapp A (fapp (plug zp) B)).
+  apply (follb_view_next zp A B nb); [discriminate|reflexivity|reflexivity].
+Qed.
+
+Lemma neighbours_differ st n z pb nb : WF st -> cur st n = Some z -> q_prev st n = Some pb -> q_next st n = Some nb -> pb <> nb.
+Proof.
+  intros W Hc Ha Hb ->. pose proof (level_disjoint st n z W Hc) as Hld.
+  destruct (q_prev_view _ _ _ _ Hc Ha) as (vp & kp & bf' & Eb & _). destruct (q_next_view _ _ _ _ Hc Hb) as (vn & kn & af' & Ea & _).
+  rewrite Eb, Ea in Hld. cbn [ids] in Hld. eapply NoDup_app_not_in; [exact Hld|left; reflexivity|].
+  right. apply in_or_app. right. left. reflexivity.
+Qed.
+
+Theorem detach_plain st n z : Good st -> (cons st = true -> noadj st) -> cur st n = Some z ->
+  erase (store (fst (m_detach st n))) = content (cons st) (fapp (tree_of st n) (fdel n (store st))).
+Proof.
+  intros G Hcn Hc. pose proof (Good_nodup _ G) as Hnd.
+  destruct (cut_setup st n z G Hc) as [Hcut Ht].
+  pose proof (ext_good _ _ (Ext_detach_raw st n G)) as G1.
+  assert (store (detach_raw st n) = fapp (tree_of st n) (fdel n (store st))) as E1 by (unfold detach_raw; rewrite Hcut, Ht; reflexivity).
+  assert (cons st = true -> na (store (fst (m_detach st n))) = true) as Hfin
+    by (intros Hcc; apply (noadj_m_detach st n G Hcc (Hcn Hcc))).
+  rewrite <- (content_plain (cons st) _ Hfin). clear Hfin. rewrite <- E1.
+  unfold m_detach. cbn [fst].
+  destruct (remove_consolidate (detach_raw st n) (q_prev st n) (q_next st n)) as [s m] eqn:E.
+  destruct (rc_exact _ _ _ _ _ E) as [[-> ->]|(pb & nb & tp & tn & Ha & Hb & Hcc & Hvp & Hvn & -> & ->)]; cbn [fst]; [reflexivity|].
+  rewrite cons_detach_raw in Hcc. rewrite Hcc.
+  pose proof Hvp as Hvp0. pose proof Hvn as Hvn0. rewrite (val_detach st n pb G) in Hvp0. rewrite (val_detach st n nb G) in Hvn0.
+  rewrite (merged_store (detach_raw st n) pb _ nb tn G1 (neighbours_differ st n z pb nb (Good_WF _ G) Hc Ha Hb) Hvn).
+  apply (reading_merged _ pb nb tp tn G1).
+  - rewrite E1, Ht. cbn [fapp follb]. right. right. eapply neighbours_touch; eauto.
+  - apply val_nodes. exact Hvp.
+  - apply val_nodes. exact Hvn.
+Qed.
+
+Lemma val_remove_subtree st n x v : Good st -> val (remove_subtree_raw st n) x = Some v -> val st x = Some v.
+Proof.
+  intros G H. pose proof (ext_good _ _ (Ext_remove_subtree_raw st n G)) as G1.
+  apply val_nodes in H. apply nodes_val; [apply Good_nodup; exact G|].
+  unfold remove_subtree_raw in H. destruct (fcut n (store st)) as [[f' [[i w] k]]|] eqn:E; [|exact H].
+  cbn [store free_slots with_store] in H. eapply fcut_nodes_incl; [exact E|exact H].
+Qed.
+
+Theorem remove_plain st n z : Good st -> (cons st = true -> noadj st) -> cur st n = Some z ->
+  erase (store (fst (m_remove st n))) = content (cons st) (fdel n (store st)).
+Proof.
+  intros G Hcn Hc. pose proof (Good_nodup _ G) as Hnd.
+  destruct (cut_setup st n z G Hc) as [Hcut Ht].
+  pose proof (ext_good _ _ (Ext_remove_subtree_raw st n G)) as G1.
+  assert (store (remove_subtree_raw st n) = fdel n (store st)) as E1 by (unfold remove_subtree_raw; rewrite Hcut; reflexivity).
+  assert (cons st = true -> na (store (fst (m_remove st n))) = true) as Hfin
+    by (intros Hcc; apply (noadj_m_remove st n G Hcc (Hcn Hcc))).
+  rewrite <- (content_plain (cons st) _ Hfin). clear Hfin. rewrite <- E1.
+  unfold m_remove. cbn [fst].
+  destruct (remove_consolidate (remove_subtree_raw st n) (q_prev st n) (q_next st n)) as [s m] eqn:E.
+  destruct (rc_exact _ _ _ _ _ E) as [[-> ->]|(pb & nb & tp & tn & Ha & Hb & Hcc & Hvp & Hvn & -> & ->)]; cbn [fst]; [reflexivity|].
+  rewrite cons_remove_subtree_raw in Hcc. rewrite Hcc.
+  rewrite (merged_store (remove_subtree_raw st n) pb _ nb tn G1 (neighbours_differ st n z pb nb (Good_WF _ G) Hc Ha Hb) Hvn).
+  apply (reading_merged _ pb nb tp tn G1).
+  - rewrite E1. eapply neighbours_touch; eauto. eapply val_remove_subtree; eauto.
+  - apply val_nodes. exact Hvp.
+  - apply val_nodes. exact Hvn.
+Qed.
